@@ -137,6 +137,12 @@ def subTsDur (release : Bool) (l r : TS) : R Dur := do
     let b ← plainI64 release (a - 0)
     durNew (asU64 b) (asU32 total)
 
+/-- rusl `impl TryFrom<Duration> for TimeSpec` (what `thread::sleep` feeds to nanosleep); the error value is
+erased: `.none` = `Err(..)` -/
+def durToTS (d : Dur) : R TS := do
+  let s ← tryI64 d.secs
+  pure ⟨s, d.nanos⟩
+
 /-- derived `Ord` on `TimeSpec` (fields `tv_sec`, `tv_nsec` in that order) -/
 def cmpTS (a b : TS) : Ordering :=
   if a.sec < b.sec then .lt else if a.sec > b.sec then .gt
